@@ -27,7 +27,7 @@ func init() {
 				k = 3
 			}
 			return evid.Spec{ID: "C05", Level: "model_checking", Exhaustive: true,
-				Rule: fmt.Sprintf("streams of 1-3 packets (body lengths from {0,1,5,83,95,96,107,108,300}, mixed types/sessions/versions; one stream with a 65536-byte body) delivered to the real server loop and to the real Client.Send "+
+				Rule: fmt.Sprintf("streams of 1-3 packets (body lengths from {0,1,5,83,95,96,107,108,300}, mixed types/sessions/versions; streams with a 65536-byte body, and streams whose first body is 5000 / 4097 (thorough: 8191, 20000, 33000) bytes with small packets behind it) delivered to the real server loop and to the real Client.Send "+
 					"through a scripted connection whose every Read returns exactly one chunk; all cut sets of size <= %d (size-%d sets and the 64 KiB stream restricted to a +/-14 byte window around header/body boundaries), the two extreme "+
 					"segmentations, and every EOF / read-timeout position combined with <= 1 cut; oversize headers (65537, 2^31-1, 2^32-1) under every cut of the 12 header bytes. Oracle: the receiver sees exactly the sent "+
 					"(header, cleartext) sequence, nothing for an incomplete packet, an error and close on EOF/timeout mid-packet, refusal of an oversize announcement with no further Read and < 1 MiB allocated. "+
@@ -390,7 +390,11 @@ func c05Run(c *Ctx) {
 	streams := [][]int{{0}, {1}, {5}, {83}, {95}, {96}, {107}, {108}, {300},
 		{0, 0}, {1, 5}, {83, 95}, {95, 0}, {96, 1}, {107, 108}, {300, 5}, {5, 300},
 		{0, 1, 5}, {83, 0, 96}, {95, 107, 5}, {1, 300, 0}}
-	big := [][]int{{65536, 5}, {5, 65536}}
+	// large bodies between the usual buffer sizes, with small packets behind them in the same segment
+	big := [][]int{{65536, 5}, {5, 65536}, {5000, 30, 200}, {4097, 5}}
+	if !c.Quick {
+		big = append(big, []int{8191, 0, 5}, []int{20000, 83}, []int{33000, 12, 1})
+	}
 	unit := int64(0)
 	mine := func() bool { unit++; return c.N <= 1 || int(unit%int64(c.N)) == c.K }
 
